@@ -132,6 +132,11 @@ def replace_typevars(ty: t.Any,
             # single-element union, return as value
             return next(iter(args))
 
+    if base is t.Annotated and hasattr(ty, 'copy_with'):
+        # subscripting Annotated again goes through typing's cache, which compares by
+        # equality (Union[A, B] == Union[B, A]); copy_with() keeps the metadata
+        return ty.copy_with((next(iter(args)),))
+
     return base[tuple(args)]  # type: ignore
 
 
